@@ -132,6 +132,8 @@ var sigs = map[string]sig{
 	"HashName":                        {},
 	"redactNamespaceFields":           {},
 	"redactOperation":                 {},
+	"redactCommand":                   {},
+	"redactNamespace":                 {},
 }
 
 // functions that call one another: emitted in one `mutual` block, all with a fuel argument
@@ -140,7 +142,7 @@ var mutualGroups = [][]string{{"redactQueryValues", "redactArrayValuesWithKey"}}
 // emission order (callees first)
 var order = []string{"HashName", "reMatchesAnyKeyInPath", "redactString", "IsEmail", "withinSearchUserDocument", "RemoveElementAfter", "RemoveElementsBeforeIncluding",
 	"traverseMapPath", "getOp", "redactScalarValue", "isFieldNameValue", "isRedactableFieldPatternInArray", "isInSearchStage", "augmentOp",
-	"redactQueryValues", "redactArrayValuesWithKey", "redactArrayValues", "redactNamespaceFields", "redactOperation"}
+	"redactQueryValues", "redactArrayValuesWithKey", "redactArrayValues", "redactNamespaceFields", "redactOperation", "redactCommand", "redactNamespace"}
 
 type gname struct {
 	lean string
@@ -201,6 +203,16 @@ type tr struct {
 	mut    map[string]bool
 	out    []string
 	inLoop int
+	// aliasing of nested maps / slices obtained from an enclosing map: where a value came from (`x, ok := m.Get(k)`; `for _, x := range xs`)
+	// and, for a map / slice asserted out of such a value, where an update of it has to be written back
+	src  map[string]origin // Go variable holding a JSON value -> where it was read
+	prov map[string]origin // Go variable holding a map / slice asserted from such a value -> where it lives
+}
+
+type origin struct {
+	parent string // Go name of the enclosing map / slice variable
+	key    string // Lean term of the key (maps) or of the index (slices)
+	isIdx  bool
 }
 
 func (x *tr) bad(n ast.Node, what string) {
@@ -945,11 +957,57 @@ func (x *tr) define(ind int, n ast.Node, lhs []ast.Expr, rhs []ast.Expr) {
 		lns = append(lns, x.declare(nm, v.t.elems[i]))
 		mut = mut || x.mut[nm]
 	}
+	// x, ok := m.Get(k) on a document held in a local variable: remember where x was read
+	if c, ok := rhs[0].(*ast.CallExpr); ok && len(names) == 2 && names[0] != "_" {
+		if se, ok := c.Fun.(*ast.SelectorExpr); ok && se.Sel.Name == "Get" && len(c.Args) == 1 {
+			if id, ok := se.X.(*ast.Ident); ok {
+				if g, ok := x.lookup(id.Name); ok && g.t.k == "JObj" {
+					k := x.expr(c.Args[0])
+					if !k.partial {
+						x.src[names[0]] = origin{parent: id.Name, key: k.s}
+					}
+				}
+			}
+		}
+	}
+	// m, ok := x.(*OrderedMap) / a, ok := x.([]any) on such a value: the map / slice lives inside the enclosing one
+	if ta, ok := rhs[0].(*ast.TypeAssertExpr); ok && len(names) == 2 && names[0] != "_" {
+		if id, ok := ta.X.(*ast.Ident); ok {
+			if o, ok := x.src[id.Name]; ok && (v.t.elems[0].k == "JObj" || v.t.elems[0].k == "JList") {
+				x.prov[names[0]] = o
+				mut = true
+			}
+		}
+	}
 	kw := "let "
 	if mut {
 		kw = "let mut "
 	}
 	x.emit(ind, kw+"("+strings.Join(lns, ", ")+") := "+v.s)
+}
+
+// writeBack: the Go variable `name` (a map or slice that lives inside an enclosing map / slice) has been updated; the enclosing
+// values see the update (they hold a pointer to it): rebind them, outwards
+func (x *tr) writeBack(ind int, name string) {
+	o, ok := x.prov[name]
+	if !ok {
+		return
+	}
+	g, _ := x.lookup(name)
+	pg, ok := x.lookup(o.parent)
+	if !ok {
+		return
+	}
+	wrap := "J.obj"
+	if g.t.k == "JList" {
+		wrap = "J.arr"
+	}
+	if o.isIdx {
+		x.emit(ind, pg.lean+" := (← setIdx "+pg.lean+" "+o.key+" ("+wrap+" "+g.lean+"))")
+	} else {
+		x.emit(ind, pg.lean+" := setKV "+o.key+" ("+wrap+" "+g.lean+") "+pg.lean)
+	}
+	x.writeBack(ind, o.parent)
 }
 
 func (x *tr) assign(ind int, s *ast.AssignStmt) {
@@ -1300,6 +1358,23 @@ func (x *tr) rangeStmt(ind int, s *ast.RangeStmt) {
 	if val != nil {
 		vn = x.declare(val.Name, et)
 	}
+	// a loop over a slice that lives inside a document, whose body updates maps asserted out of the elements: the elements need an
+	// index to be written back to
+	if !useIdx && val != nil && coll.t.k == "JList" {
+		if cid, ok := s.X.(*ast.Ident); ok {
+			if _, lives := x.prov[cid.Name]; lives && bodyUpdates(s.Body) {
+				in := vn + "_i"
+				x.emit(ind, "for ("+vn+", "+in+"_n) in ("+coll.s+").zipIdx do")
+				x.emit(ind+1, "let "+in+" : Int := "+in+"_n")
+				x.src[val.Name] = origin{parent: cid.Name, key: in, isIdx: true}
+				x.inLoop++
+				x.block(ind+1, s.Body.List)
+				x.inLoop--
+				x.pop()
+				return
+			}
+		}
+	}
 	if useIdx {
 		in := x.declare(key.Name, T("Int"))
 		x.emit(ind, "for ("+vn+", "+in+"_n) in ("+coll.s+").zipIdx do")
@@ -1311,6 +1386,29 @@ func (x *tr) rangeStmt(ind int, s *ast.RangeStmt) {
 	x.block(ind+1, s.Body.List)
 	x.inLoop--
 	x.pop()
+}
+
+// bodyUpdates: does the block call a procedure or Set on something (so that aliasing matters)?
+func bodyUpdates(b *ast.BlockStmt) bool {
+	r := false
+	ast.Inspect(b, func(n ast.Node) bool {
+		if es, ok := n.(*ast.ExprStmt); ok {
+			if c, ok := es.X.(*ast.CallExpr); ok {
+				switch f := c.Fun.(type) {
+				case *ast.Ident:
+					if _, ok := sigs[f.Name]; ok {
+						r = true
+					}
+				case *ast.SelectorExpr:
+					if f.Sel.Name == "Set" {
+						r = true
+					}
+				}
+			}
+		}
+		return true
+	})
+	return r
 }
 
 func (x *tr) forStmt(ind int, s *ast.ForStmt) {
@@ -1533,10 +1631,32 @@ func (x *tr) stmt(ind int, st ast.Stmt) {
 							x.bad(c, "key type")
 						}
 						if !x.mut[id.Name] {
-							x.bad(c, "Set on a variable the pre-scan did not see as mutable")
+							if _, lives := x.prov[id.Name]; !lives {
+								x.bad(c, "Set on a variable the pre-scan did not see as mutable")
+							}
 						}
 						x.emit(ind, g.lean+" := setKV "+k.s+" "+v.s+" "+g.lean)
+						x.writeBack(ind, id.Name)
 						return
+					}
+				}
+			}
+		}
+		// f(m, …) for a procedure f of the translated set: m is rebound to the updated map (and written back where it lives)
+		if c, ok := s.X.(*ast.CallExpr); ok {
+			if fid, ok := c.Fun.(*ast.Ident); ok {
+				if fi, ok := x.fns[fid.Name]; ok && fi.proc && len(c.Args) == len(fi.params) {
+					if id, ok := c.Args[0].(*ast.Ident); ok {
+						if g, ok := x.lookup(id.Name); ok && g.t.k == "JObj" {
+							_, lives := x.prov[id.Name]
+							if !x.mut[id.Name] && !lives {
+								x.bad(c, "procedure call on a variable that is not known to be updatable")
+							}
+							r := x.call(c)
+							x.emit(ind, g.lean+" := "+r.s)
+							x.writeBack(ind, id.Name)
+							return
+						}
 					}
 				}
 			}
@@ -1569,6 +1689,14 @@ func outlineOK(fi *fnInfo) bool {
 				return false
 			}
 		case *ast.RangeStmt, *ast.ForStmt:
+		case *ast.ExprStmt:
+			if c, ok := s.X.(*ast.CallExpr); !ok {
+				return false
+			} else if fid, ok := c.Fun.(*ast.Ident); !ok {
+				return false
+			} else if _, ok := sigs[fid.Name]; !ok {
+				return false
+			}
 		default:
 			return false
 		}
@@ -1603,6 +1731,13 @@ func mutated(fd *ast.FuncDecl) map[string]bool {
 				if se, ok := c.Fun.(*ast.SelectorExpr); ok && se.Sel.Name == "Set" {
 					if id, ok := se.X.(*ast.Ident); ok {
 						m[id.Name] = true
+					}
+				}
+				if fid, ok := c.Fun.(*ast.Ident); ok && len(c.Args) > 0 {
+					if _, ok := sigs[fid.Name]; ok {
+						if id, ok := c.Args[0].(*ast.Ident); ok {
+							m[id.Name] = true
+						}
 					}
 				}
 			}
@@ -1646,6 +1781,8 @@ func (x *tr) function(name string) (text string, err string) {
 	}
 	x.out = nil
 	x.inLoop = 0
+	x.src = map[string]origin{}
+	x.prov = map[string]origin{}
 	x.push()
 	hdr := []string{}
 	pats := []string{}
